@@ -26,7 +26,7 @@ Plain8 == {Elem("stanza", "own", B0), Elem("stanza", "peer", B2), Elem("foreign"
            Top("lclose"), Elem("stanza", "was", B0)}
 Term8 == {Elem("stanza", "none", Ins(B2, i, <<"c", "comment">>)) : i \in {1, 3, 8}}
          \cup {Elem("stanza", "own", Ins(B1, 2, <<"c", "serr">>)), Elem("foreign", "none", Ins(B1, 3, <<"bad">>))}
-         \cup {Top(k) : k \in {"text", "comment", "restart", "close", "eof"}} \cup {SErr("host-unknown")}
+         \cup {Top(k) : k \in {"text", "utext", "comment", "restart", "close", "eof"}} \cup {SErr("host-unknown")}
 (* a prefix of continuing items, one terminating item, possibly something behind it *)
 C8InputsMC == {pre \o <<t>> \o post : pre \in UNION {[1..n -> Plain8] : n \in 0..2}, t \in Term8,
                                      post \in {<<>>, <<Elem("stanza", "peer", B1)>>}}
@@ -38,6 +38,6 @@ C8InputsMC3 == {pre \o <<t>> \o post : pre \in UNION {[1..n -> Plain8] : n \in 0
 C8SessMC == {Sess("c2s", "custom", "same", FALSE), Sess("rc2s", "custom", "other", FALSE), Sess("rs2s", "custom", "none", TRUE)}
 C8SessMC5 == C8SessMC \cup {Sess("s2s", "custom", "other", FALSE), Sess("c2s", "lib", "same", TRUE)}
 ASSUME C8SessMC5 \subseteq AllSess
-C8ProgsMC == {<<Prog8(n, m)>> : n \in {0, 1, 3, 8, 10}, m \in {"stop", "ignore"}}
+C8ProgsMC == {<<Prog8(n, m)>> : n \in {0, 1, 3, 8, 10}, m \in {"stop", "ignore"}} \cup {<<Prog8(n, "stopeof")>> : n \in {0, 3}}
              \cup {<<Prog8(0, "stop"), Prog8(10, "ignore")>>, <<Prog8(10, "stop"), Prog8(2, "ignore")>>}
 =============================================================================
